@@ -73,7 +73,7 @@ def sexpr_value(e, env=None):
             return e == 'true'
         if e.startswith('K_'):
             return e[2:]
-        if e == 'pv_None':
+        if e in ('pv_None', 'py_None'):
             return None
         if e == 'yn_Bad':
             return N(SCALAR, 'tag:yaml.org,2002:str', '', [], [], 0, 0)
@@ -113,6 +113,16 @@ def sexpr_value(e, env=None):
         return specrt.Other(sexpr_value(e[1], env))
     if h.startswith('ty_'):
         return specrt.TyT((h[3:],) + tuple(sexpr_value(x, env) for x in e[1:]))
+    if h == 'py_Dict':
+        return ('__dict__', sexpr_value(e[1], env), sexpr_value(e[2], env))
+    if h == 'py_List':
+        return sexpr_value(e[1], env)
+    if h in ('py_Bool', 'py_Int', 'py_Float', 'py_Str'):
+        return sexpr_value(e[1], env)
+    if h == 'py_Obj':
+        return ('__obj__', sexpr_value(e[1], env))
+    if h == 'py_Other':
+        return ('__other__',)
     if h == 'er_E':
         return (sexpr_value(e[1], env), sexpr_value(e[2], env))
     raise Bad('term ' + str(h))
@@ -312,7 +322,10 @@ class Monitor:
         ns = types.SimpleNamespace()
         if fields:
             for f, k in fields.items():
-                v = self.get_field(obj, f)
+                try:
+                    v = self.get_field(obj, f)
+                except AttributeError:
+                    continue        # not set yet (e.g. Constructor.__loader)
                 setattr(ns, f, self.abs_by_key(k, v))
         return ns
 
@@ -332,6 +345,8 @@ class Monitor:
         if key == 'Ty':
             from pyvc import native_types
             return native_types.abs_type(v)
+        if key == 'resolver':
+            return None
         return v
 
     def param_key(self, c, fn, p):
@@ -475,6 +490,9 @@ def build_self(qual, fields_model):
         from yatiml.recognizer import Recognizer
         return H.UnknownNode(Recognizer({}, {}),
                              conc_node(fields_model['yaml_node']))
+    if cname == 'Constructor':
+        from yatiml.constructors import Constructor
+        return Constructor(object)
     raise Bad('no receiver factory for ' + cname)
 
 
@@ -489,13 +507,87 @@ def conc_value(key, v):
         return v
     if key == 'Ty':
         from pyvc import native_types
-        return native_types.conc_type(v)
+        try:
+            return native_types.conc_type(v)
+        except native_types.Bad as b:
+            raise Bad(str(b))
+    if key == 'PyV':
+        from pyvc import native_types
+        return native_types.conc_pyv(v)
     return v
 
 
 def replay_obligation(rec, monitor=None):
-    """rec: the replay record written by the checker.  -> dict verdict"""
+    """rec: the replay record written by the checker.  -> dict verdict.
+    First the solver's model is concretised and run; where that does not
+    reproduce (models of obligations with bounded unfolding of recursive spec
+    functions can be spurious) and every input is of an enumerable sort, a
+    small contract-guided search over inputs follows: the contract itself,
+    evaluated natively around the REAL function, is the oracle."""
     monitor = monitor or Monitor()
+    try:
+        v = replay_model(rec, monitor)
+    except Bad as b:
+        v = {'reproduced': False,
+             'error': 'model not concretisable: %s' % b}
+    if v.get('reproduced'):
+        v['found_by'] = 'solver model'
+        return v
+    s = replay_search(rec, monitor)
+    if s is not None:
+        s['model_replay'] = {k: v.get(k) for k in ('inputs', 'error',
+                                                  'failures')}
+        return s
+    return v
+
+
+def replay_search(rec, monitor, limit=200000):
+    from pyvc import native_types
+    qual = rec['function']
+    inputs = rec['inputs']
+    names = [n for n in inputs if not n.startswith('self.')]
+    keys = {n: inputs[n]['key'] for n in names}
+    if not names or any(k not in ('PyV', 'Ty') for k in keys.values()):
+        return None
+    cls, fn = real_function(qual)
+    import inspect
+    import itertools
+    order = [p for p in inspect.signature(fn).parameters if p != 'self'
+             and p in keys]
+    pools = []
+    for p in order:
+        if keys[p] == 'PyV':
+            pools.append(native_types.small_values(1))
+        else:
+            pools.append(native_types.small_types(2))
+    self_obj = build_self(qual, {}) if cls is not None else None
+    n = 0
+    for combo in itertools.product(*pools):
+        n += 1
+        if n > limit:
+            break
+        args = {}
+        try:
+            for p, v in zip(order, combo):
+                args[p] = conc_value(keys[p], v) if keys[p] == 'Ty' else v
+        except Bad:
+            continue
+        out = monitor.run(qual, self_obj, args, keys)
+        if out.pre_ok and out.failures:
+            return {'function': qual,
+                    'inputs': {p: repr(a) for p, a in args.items()},
+                    'precondition_holds': True,
+                    'exception': repr(out.exception) if out.exception
+                    else None,
+                    'result': repr(out.result),
+                    'failures': out.failures, 'reproduced': True,
+                    'found_by': 'contract-guided bounded search over small '
+                    'inputs (%d tried) after the solver model did not '
+                    'replay' % n}
+    return None
+
+
+def replay_model(rec, monitor):
     qual = rec['function']
     model = rec.get('model') or {}
     inputs = rec['inputs']          # name -> {'key':..., 'symbol':...}
